@@ -373,8 +373,19 @@ class DataFrameSchemaBackend(PandasSchemaBackend):
             for col in check_obj.columns:
                 columns[col] = Column(schema.dtype, name=str(col))
 
+        data_only = (
+            get_config_context().validation_depth
+            == ValidationDepth.DATA_ONLY
+        )
         schema_components = []
         for col_name, col in columns.items():
+            if (
+                data_only
+                and getattr(col, "regex", False)
+                and col_name not in column_info.regex_match_patterns
+            ):
+                # column presence is a schema-level constraint
+                continue
             if (
                 col.required  # type: ignore
                 or col_name in check_obj
